@@ -24,6 +24,16 @@ CHECKS = {
    note="Until fixes/C06-1-strict-amount-parse.diff is applied the correspondence runs against the model of the code AS SHIPPED and the three defect classes it repairs are KNOWN findings with narrow matchers (findings/C06.json); moving those entries to 'fixed' switches the correspondence to the repaired model. Known findings by design: percentage text without % / empty, the text null, JSON escapes, percentages beyond 2^52 (float64). Trusted: Coq kernel, extraction, OCaml driver, Go harness, Python judge. Modelled not verified: fmt %d/%0*d and strconv.ParseInt (tied by the correspondence), float64 path of percentages (exact in the model, C05's 2^52 guard), encoding/json tokenizer (struct-field route judged by the Python oracle only).",
    technique="Rocq theorems over a Gallina model + differential correspondence (extracted OCaml vs Go) + independent oracle on the implementation's outputs",
    design="7 (C06)"),
+ "C14": dict(
+   text="Proof for the modelled cores only (partial): rocq/Props/C14.v states, over nil/bounds-aware Gallina transcriptions (result = Ok | Err | Panic) of removePreviousScenarioNotes, calculateLineItemPrice (+ currency.Convert), head.Header validation and errors.go wrapError / Envelope.Verify, that the code AS SHIPPED panics or returns an unstructured error (four refutations with witnesses) and that the repaired cores never panic on any input, agree with the shipped code wherever that does not panic, and that every error reaching the envelope API carries one of the nine documented keys. The rest of the library is covered by a structure-aware mutation sweep (every single-member mutation of all example documents + seeded random inputs through parse/calculate/validate/digest/sign/verify/correct/replicate in 16 watchdog-guarded worker processes), which is a search, not a proof: a panic, hang or abort found there is directly the failing input.",
+   note="Partial: panic-freedom is proved for four modelled cores; Go runtime behaviour (hangs, memory exhaustion) and all other functions are only searched by the sweep. The header-validation core is tied to head.Header.Validate by running both on generated headers with nil entries. Known panic sites of the unchanged tree are listed per site in findings/C14.json with narrow matchers (stage, top /repo frame function, mutation kind, member class); witnesses are kept in corpus/C14; proposed nil-guard patches in fixes/C14-*.diff. Trusted: Coq kernel, extraction, OCaml driver, harness/c14.go (mutation enumeration, recover, frame extraction), python orchestration.",
+   technique="Rocq theorems over nil/bounds-aware Gallina cores + correspondence on the header core + structure-aware mutation sweep under recover/watchdog/ulimit",
+   design="7 (C14)"),
+ "C15": dict(
+   text="Proof for the modelled cores only (partial): rocq/Props/C15.v proves, for a labelled transition system of cli.Bulk (reader, one worker per request, wait group, FIFO output, decode-error variant), that for every request list of any length and EVERY complete execution the output is a permutation of exactly one reply per request (own req_id, seq_id = position, body = f request) followed by exactly one final marker with seq_id = n+1, and that the decidable acceptance predicate the harness evaluates is exactly 'some schedule produces this output' (both directions); over a heap model of Go slices it proves that the tag/scenario/correction set builders never write a pre-existing registry cell, including spare capacity, once TagSet.Merge copies - and refutes it for the code as shipped. Ties: a deterministic deep snapshot of every registry structure (slices read up to capacity) before/after ~400 workloads (all examples + every regime x addon), whose changed cells must be exactly those the extracted shipped model predicts; generated JSON-lines streams POSTed to `gobl serve` /bulk and judged by the extracted acceptance predicate with payloads compared to the standalone CLI. Go's memory model, scheduler and all code outside the modelled helpers are covered only by the snapshot sweep and a race-detector stress run, which are search, not proof.",
+   note="Partial: race-freedom in the sense of the Go memory model is not provable in an executable Gallina model; the race detector is sampling (GOMAXPROCS 1,2,4,16, injected Gosched, per-goroutine bytes compared with the sequential result). Payload equality is checked through SHA-1 digests of canonical JSON; for sign/correct/replicate freshly generated members (signature bytes, new uuids, digest over them) are projected away. Capacity growth in the slice model is max(needed, 2*cap) (no size classes). Known finding: TagSet.Merge appends into the shared regime tag array (findings/C15.json). Trusted: Coq kernel, extraction, OCaml driver, harness/c15.go (reflection walker), harness/c15race, python orchestration, the CLI binary as the 'standalone operation'.",
+   technique="Rocq theorems over a transition system and a slice heap model + snapshot/stream correspondence (extracted OCaml predicate vs cmd/gobl) + race-detector stress",
+   design="7 (C15)"),
 }
 
 CALC_NOTE = ("Trusted: Coq kernel, extraction, OCaml driver, Go harness, python generator/comparison and the independent python reading of the calculation. "
